@@ -175,7 +175,7 @@ pub fn budget(mode: PlanMode, thorough: bool) -> Budget {
         PlanMode::Agree => (4, 4, 200),
     };
     if thorough {
-        Budget { plans: p * 6, scheds: s * 4, pair_cap: c * 4 }
+        Budget { plans: p * 4, scheds: s * 2, pair_cap: c * 2 }
     } else {
         Budget { plans: p, scheds: s, pair_cap: c }
     }
